@@ -72,6 +72,10 @@ trait Driver {
     fn structural(&self, f: usize, bytes: &[u8]) -> Result<(), (&'static str, String)>;
     fn write_path(&self, p: &Path) -> Result<(), Fail>;
     fn read_path(&self, p: &Path) -> Result<Rb, Fail>;
+    /// generator-side feature counts of the set (same-name templates by consistency kind)
+    fn features(&self) -> Vec<(String, u64)> {
+        Vec::new()
+    }
 }
 
 // ---------------------------------------------------------------------------------------------
@@ -155,6 +159,9 @@ impl Driver for AlnDriver {
     }
     fn read_path(&self, p: &Path) -> Result<Rb, Fail> {
         aln::read_path(p, &self.repo).map(aln_rb)
+    }
+    fn features(&self) -> Vec<(String, u64)> {
+        self.set.pair_stats.clone()
     }
 }
 
@@ -418,6 +425,9 @@ fn run_set(d: &dyn Driver, ctx: &Ctx, idx: u64, seed: u64) -> CaseOut {
             Verdict::Same => {
                 src_ok[f] = true;
                 out.o.count(&format!("detected_ok[{side}/{name}]"), 1);
+                for (k, n) in d.features() {
+                    out.o.count(&format!("same_name_templates_read_back[{name}/{k}]"), n);
+                }
                 out.o.count("records_compared", exp.lines.len() as u64);
             }
             Verdict::Failed(stage, err) => {
@@ -779,7 +789,10 @@ fn main() {
             .into(),
     );
     rep.assumptions.push(
-        "common model, alignment: unique read names, upper-case ACGTN bases, qualities present (a lone quality 9 = text '*' avoided), CIGAR over M/I/D/N/S with \
+        "common model, alignment: read names unique per template (single reads, and same-name templates of two primary mapped segments whose mate fields are \
+         mutually consistent, stale in one direction only, or stale in both: PNEXT, RNEXT, mate-reverse / mate-unmapped bits, TLEN magnitude / sign / zero; adjacent \
+         or separated by other reads; every target, CRAM included, must return the mate fields exactly as written - CRAM carries them explicitly on detached \
+         records and may attach mates only when recomputation restores them), upper-case ACGTN bases, qualities present (a lone quality 9 = text '*' avoided), CIGAR over M/I/D/N/S with \
          reads inside their reference, unmapped reads without MAPQ (CRAM has no MQ for them), CRAM given the generated reference sequences through \
          set_reference_sequence_repository; variant: every FILTER/INFO/FORMAT/contig defined in the header, values BCF can represent; values the noodles BCF \
          writer rejects with an explicit error are not generated (missing per-sample String / Float-array values, a missing GT value)"
@@ -821,6 +834,11 @@ fn main() {
         }
         rep.floor("record_variant_observations", c("record_variant_observations"), 50);
         rep.floor("path_runs", c("path_runs"), 50);
+        // same-name templates whose mate fields are consistent / stale in one direction / stale in both went
+        // through CRAM (where attaching mates could rewrite them)
+        for k in ["consistent", "stale-first-only", "stale-second-only", "stale-both"] {
+            rep.floor(&format!("same_name_templates_read_back[cram/{k}]"), c(&format!("same_name_templates_read_back[cram/{k}]")), 16);
+        }
         // the multi-block sets did produce multi-block text targets (the field writers of SAM and VCF write
         // straight into the BGZF writer)
         rep.floor("files_with_ge_5_bgzf_data_blocks[alignment/sam.gz]", c("files_with_ge_5_bgzf_data_blocks[alignment/sam.gz]"), 3);
